@@ -709,7 +709,7 @@ class Storage:
 class STensor:
     """shape + storage + index map.  Views share the storage and read it at use
     time; fresh results snapshot their operands."""
-    def __init__(s, shape, elem=None, base=None, imap=None, meta=None):
+    def __init__(s, shape, elem=None, base=None, imap=None, meta=None, inv=None):
         s.shape = tuple(simp(d) for d in shape)
         if base is None:
             s.base = Storage(elem)
@@ -717,7 +717,15 @@ class STensor:
         else:
             s.base = base
             s.imap = imap
+        # inv: storage index -> (membership condition, view index); only for structured views (basic indexing, permutations)
+        s.inv = inv if s.imap is not None else None
         s.meta = dict(meta or {})
+
+    def inverse(s):
+        """storage index -> (condition that it belongs to this view, its index in the view); None if not available"""
+        if s.imap is None:
+            return lambda bidx: (True, list(bidx))
+        return s.inv
 
     # value access -----------------------------------------------------------
     def at(s, idx):
@@ -748,7 +756,7 @@ class STensor:
         return s.imap is not None
 
     def with_meta(s, **kw):
-        t = STensor(s.shape, base=s.base, imap=s.imap, meta=s.meta)
+        t = STensor(s.shape, base=s.base, imap=s.imap, meta=s.meta, inv=s.inv)
         t.meta.update(kw)
         return t
 
@@ -953,14 +961,44 @@ def tget(x, key):
         full = lambda idx: pm(imap(idx))
     meta = dict(x.meta)
     meta['contig'] = False
-    return STensor(shape, base=x.base, imap=full, meta=meta)
+    xinv = x.inverse()
+    inv = None
+    if xinv is not None and all(p[0] != 'sl' or p[2] >= 1 for p in plan):
+        vshape = list(shape)
+
+        def inv(bidx, plan=plan, xinv=xinv, vshape=vshape):
+            cx, src = xinv(bidx)
+            conds = [B(cx)]
+            vidx = []
+            si = 0
+            for vd, p in enumerate(plan):
+                if p[0] == 'new':
+                    vidx.append(0)
+                elif p[0] == 'sl':
+                    sv = src[si]
+                    si += 1
+                    a, st = p[1], p[2]
+                    ln = vshape[len(vidx)]
+                    conds.append(I(sv) >= I(a))
+                    conds.append(I(sv) < I(a) + I(ln) * st)
+                    if st != 1:
+                        conds.append((I(sv) - I(a)) % st == 0)
+                        vidx.append(simp((I(sv) - I(a)) / st))
+                    else:
+                        vidx.append(simp(I(sv) - I(a)))
+                else:
+                    conds.append(I(src[si]) == I(p[1]))
+                    si += 1
+            return simp(z3.And(*conds)), vidx
+    return STensor(shape, base=x.base, imap=full, meta=meta, inv=inv)
 
 
 def tset(obj, key, val):
     """obj[key] = val (basic slices / ints), obj must be a base tensor"""
     c = ctx()
-    if obj.imap is not None:
-        raise Unsupported('slice assignment through a view')
+    oinv = obj.inverse()
+    if oinv is None:
+        raise Unsupported('slice assignment through an unstructured view (reshape / expand)')
     key = _expand_key(key, obj.ndim)
     if any(k is None or isinstance(k, IArr) for k in key):
         raise Unsupported('advanced slice assignment')
@@ -998,8 +1036,9 @@ def tset(obj, key, val):
         vget = lambda src: cv
     c.effects.append(('write', obj.base, 'setitem'))
 
-    def elem(idx):
-        inside = []
+    def elem(bidx):
+        member, idx = oinv(bidx)
+        inside = [B(member)]
         src = []
         for i, p in zip(idx, plans):
             if p[0] == 'sl':
@@ -1014,7 +1053,9 @@ def tset(obj, key, val):
             else:
                 inside.append(I(i) == I(p[1]))
         ins = simp(z3.And(*inside)) if inside else True
-        return vget(src).guard(ins) + old(idx).guard(simp(z3.Not(B(ins))))
+        if ins is False:
+            return old(bidx)
+        return vget(src).guard(ins) + old(bidx).guard(simp(z3.Not(B(ins))))
     obj.base.elem = elem
 
 
@@ -1284,7 +1325,13 @@ def t_permute(x, perm):
     full = imap if pm is None else (lambda idx: pm(imap(idx)))
     meta = dict(x.meta)
     meta['contig'] = False
-    return STensor(shape, base=x.base, imap=full, meta=meta)
+    xinv = x.inverse()
+    inv = None
+    if xinv is not None:
+        def inv(bidx):
+            cx, xi = xinv(bidx)
+            return cx, [xi[p] for p in perm]
+    return STensor(shape, base=x.base, imap=full, meta=meta, inv=inv)
 
 
 def t_contiguous(x):
